@@ -156,7 +156,7 @@ def run_case(case):
             cmp(want, record_leaves(rec), "api_parse", fails, rendered)
         except Exception as e:
             fails.append({"sig": f"api_parse_raised:{type(e).__name__}", "detail": {"err": repr(e)[:200]}})
-    if case.get("cli") and not fails:
+    if case.get("cli") and not fails and not r["source"].startswith("\ufeff"):  # a BOM is consumed by the file reader
         d = tempfile.mkdtemp(prefix="vfw_c28_")
         try:
             with open(os.path.join(d, "f.sql"), "w", encoding="utf-8", newline="") as f:
